@@ -199,6 +199,23 @@ func VxC16_LogAffine() {
 			vx.Assert(m1 != m2, "Log.Map is strictly monotone")
 		}
 	}
+	// clamping: confined to [0,1], unchanged inside the domain, the right end outside it
+	sc := s
+	sc.SetClamp(true)
+	c1 := sc.Map(sgn * x1)
+	vx.Assert(vx.Close(sc.Map(s.Min), 0, 0, 1e-9) && vx.Close(sc.Map(s.Max), 1, 1e-9, 0), "clamped Log.Map still sends Min to 0 and Max to 1")
+	if x1 >= lo && x1 <= hi {
+		vx.Cover("inside-domain")
+		vx.Assert(vx.Close(c1, m1, 1e-9, 1e-9), "clamping leaves Log.Map unchanged inside the domain")
+	} else {
+		vx.Cover("outside-domain")
+		beyondMax := (x1 > hi) != neg // past Max for a positive domain; for a negative one |x| < |Max|... mapped past 1
+		if beyondMax {
+			vx.Assert(c1 == 1, "beyond Max the clamped Log.Map is 1")
+		} else {
+			vx.Assert(c1 == 0, "before Min the clamped Log.Map is 0")
+		}
+	}
 	vx.Assert(vx.Close(s.Unmap(m1), sgn*x1, 1e-9, 1e-9), "Log.Unmap(Map(x)) = x")
 	vx.Assert(vx.Close(s.Map(s.Unmap(y)), y, 1e-9, 1e-9), "Log.Map(Unmap(y)) = y")
 }
